@@ -3,6 +3,11 @@
 import json, subprocess
 ALL=[f"C{i:02d}" for i in range(1,20)]
 CLAIMED={
+ "C09": dict(
+   text="Differential exhaustive check without expected values: on disks with 1..N free blocks and a large one, in every state reached by a bounded building sequence, every request of a list of candidates that fail part-way is issued; if it returns an error, dump (incl. handles), free counts, fsck, reclaim and cache audits must equal those of the run without it, and every bounded suffix of further operations (incl. restart) must reply and end identically.",
+   note="Trusted: determinism of the controlled executions (the two runs differ only by the failed request; server-chosen times and inode numbers are excluded from the suffix comparison). Bounds: building depth, candidate list, suffix length, disk sizes; nearly-exhausted inode tables are not built (32k creates) - inode exhaustion is exercised by C15's fill only.",
+   technique="explicit-state differential search over operation sequences of the implementation (run with vs without the failing request)",
+   ref="DESIGN.md 4 (C09)"),
  "C08": dict(
    text="Breadth-first search over create/remove/rename-over/restart/crash-restart cycles with immediate inode-number reuse; in every state every handle ever issued (live or dead) is used in every procedure and every handle position; dead handles must answer STALE/BADHANDLE and change nothing, live handles must denote the bound object, new handles must never repeat.",
    note="Trusted: reference model's handle binding. Bounds: depth, two directories, a few names; inode exhaustion/wrap-around of the allocator is not reached (restart-driven reuse instead).",
